@@ -38,7 +38,7 @@ def load_known():
 
 
 def finding_matches(fi, prop, contract_name, pr):
-    if fi.get("property") != prop:
+    if prop != fi.get("property") and prop not in fi.get("properties", []):
         return False
     if not re.search(fi.get("contract", ".*"), contract_name):
         return False
@@ -74,7 +74,8 @@ def check_property(prop, tier, seed=0, replay_path=None, only=None):
     for r in results:
         c = r.c
         real = [p for p in r.props if not p.get("canary")]
-        fails = [p for p in real if p["status"] != "SUCCESS"]
+        fails = [p for p in real if p["status"] == "FAILURE"]
+        unknown = [p for p in real if p["status"] not in ("SUCCESS", "FAILURE")]
         is_bounded = c.kind.startswith("bounded")
         listed = []
         unlisted = []
@@ -83,10 +84,10 @@ def check_property(prop, tier, seed=0, replay_path=None, only=None):
             (listed if m else unlisted).append((p, m))
         if is_bounded:
             n_bounded += len(real)
-            n_bounded_ok += len(real) - len(fails)
+            n_bounded_ok += len(real) - len(fails) - len(unknown)
         else:
             n_obl += len(real)
-            n_ok += len(real) - len(fails)
+            n_ok += len(real) - len(fails) - len(unknown)
         functions[c.fn.pretty] = c.fn.where()
         for rc in c.replaces:
             functions.setdefault(rc.fn.pretty, rc.fn.where())
